@@ -364,6 +364,13 @@ func (e *Executor) runCommand(ctx context.Context, t *ast.Task, call *Call, i in
 	}
 }
 
+// executionOutcome is the cancellation cause of the context that callers of an
+// already running (or finished) deduplicated task wait on. It carries the
+// result of that one execution to them.
+type executionOutcome struct{ err error }
+
+func (o *executionOutcome) Error() string { return "task: shared execution finished" }
+
 func (e *Executor) startExecution(ctx context.Context, t *ast.Task, execute func(ctx context.Context) error) error {
 	h, err := e.GetHash(t)
 	if err != nil {
@@ -385,16 +392,25 @@ func (e *Executor) startExecution(ctx context.Context, t *ast.Task, execute func
 		defer reacquire()
 
 		<-otherExecutionCtx.Done()
+		// Report the outcome of the shared execution: a failed (or cancelled)
+		// execution must fail every task that waited for it
+		if outcome, ok := context.Cause(otherExecutionCtx).(*executionOutcome); ok {
+			return outcome.err
+		}
 		return nil
 	}
 
-	ctx, cancel := context.WithCancel(ctx)
-	defer cancel()
+	// The context that other callers wait on is only done once the execution
+	// has returned (it is not derived from this caller's context, which may be
+	// cancelled while the task is still running) and carries its error
+	doneCtx, done := context.WithCancelCause(context.Background())
+	defer func() { done(&executionOutcome{err: err}) }()
 
-	e.executionHashes[h] = ctx
+	e.executionHashes[h] = doneCtx
 	e.executionHashesMutex.Unlock()
 
-	return execute(ctx)
+	err = execute(ctx)
+	return err
 }
 
 // FindMatchingTasks returns a list of tasks that match the given call. A task
